@@ -508,8 +508,11 @@ func trimStacks(s string, n int) string {
 }
 
 func runC12(r *ev.Run) {
-	r.Rule = "per stack: G in {1,4,16} goroutines blocked in Receive (and ServeAsk) with non-expiring contexts on one node while two peers tell/ask it continuously, optionally replying from inside the callbacks, optionally with an Ask of its own outstanding (the peer's handler has started and is held); Close at a seeded moment, in a third of the cases from two goroutines at once, in a third after the peers have fallen silent (receivers truly blocked) (seeded delays at hub/queue hook points); monitors: Close itself, the blocked calls, a second Close and 50 further calls must not stay parked (two goroutine snapshots 1 s apart) and must not report success; messages created after Close returned (epoch flag set by the harness after Close returned) must never reach a callback; after closing every swarm of the stack no goroutine started by them may remain. non-trivial = deliveries were flowing when Close was called; distinct = (stack, G, reply-in-callback, traffic overlap)"
+	r.Rule = "per stack: G in {1,4,16} goroutines blocked in Receive (and ServeAsk) with non-expiring contexts on one node while two peers tell/ask it continuously, optionally replying from inside the callbacks, optionally with an Ask of its own outstanding (the peer's handler has started and is held); Close at a seeded moment, in a third of the cases from two goroutines at once, in a third after the peers have fallen silent (receivers truly blocked) (seeded delays at hub/queue hook points); monitors: Close itself, the blocked calls, a second Close and 50 further calls must not stay parked (two goroutine snapshots 1 s apart) and must not report success; messages created after Close returned (epoch flag set by the harness after Close returned) must never reach a callback; after closing every swarm of the stack no goroutine started by them may remain; an sshswarm node closed while four raw ssh clients connect and send 40 tells each the moment their handshake is done (30-150 rounds): no goroutine of its connections may remain. non-trivial = deliveries were flowing when Close was called; distinct = (stack, G, reply-in-callback, traffic overlap)"
 	g := rng.New(r.Seed, "C12", fmt.Sprint(r.Batch))
+	if r.Mine(0) {
+		c12SSHCloseDuringSetup(r, rng.New(r.Seed, "C12-ssh-setup")) // first in its batch: nothing else has left goroutines behind yet
+	}
 	idx := 0
 	for _, sf := range allStacks() {
 		if sf.Heavy && !isThorough(r) && sf.Name != "ssh" && sf.Name != "quic(mem)" && sf.Name != "p2pke(udp)" {
